@@ -139,7 +139,7 @@ func vfReleasePlan(rt *rapid.T, s *vfSess, w *vfEnd) {
 func TestVerifC13Stream(t *testing.T) {
 	vfC13Anchor()
 	c := ev.For("C13")
-	c.Rule("stream: lock-step cases over the gated wire: arrangement (real<->real, real client<->reference server, reference client<->real server), reference private key (uniform, 0, 1, 2, all-ff, p, p-1; X or p-X sent) and padding per phase (0, 1, 4096, 4097, uniform), deterministic randomness of the real side, 6..36 actions write(side,n) / release(direction, plan: 1 byte, few, k, all, up to key/first-flight/magic-start/magic-end/write boundary -1/0/+1, dribble, magic split at offset j with rest alone / rest+data / one byte) / readSmall; oracle after every released segment and write at quiescence: reader holds exactly plaintext[:released-preamble]; non-trivial = a segment boundary strictly inside a magic value, or payload in the same segment as the end of a magic, or an extreme reference padding length; fingerprint = config + action list")
+	c.Rule("stream: lock-step cases over the gated wire: arrangement (real<->real, real client<->reference server, reference client<->real server), reference private key (uniform, 0, 1, 2, all-ff, p, p-1; X or p-X sent) and padding per phase (0, 1, 4096, 4097, uniform), deterministic randomness of the real side, 6..36 actions write(side,n) / release(direction, plan: 1 byte, few, k, all, up to key/first-flight/magic-start/magic-end/write boundary -1/0/+1, dribble, magic split at offset j with rest alone / rest+data / one byte) / readSmall; oracle after every released segment and write at quiescence: reader holds exactly plaintext[:released-preamble]; non-trivial = a segment boundary strictly inside a magic value, or payload in the same segment as the end of a magic, or an extreme reference padding length; fingerprint = config + action list; in ~45 % of the cases the padding lengths drawn by the real sides are steered to 0, 1, 4096, 4097 (and 4098, which a correct sender maps to 0) by answering the 8-byte read behind csrand.IntRange")
 	c.Assume("HMAC-SHA256, AES-CTR and math/big of the Go standard library are trusted (shared with the reference peer)")
 	c.Floor("arr-realC-refS/stream", 0.22)
 	c.Floor("arr-refC-realS/stream", 0.22)
@@ -148,6 +148,8 @@ func TestVerifC13Stream(t *testing.T) {
 	c.Floor("magic+payload-coalesced/stream", 0.15)
 	c.Floor("refpad-extreme/mixed", 0.30)
 	c.Floor("refpad-total-8194/mixed", 0.04)
+	c.Floor("realpad-extreme/stream", 0.15) // the steering of the real side's padding draw works
+	c.Floor("realpad-total-8194/stream", 0.03)
 	rapid.Check(t, func(rt *rapid.T) { vfC13StreamCase(rt, c) })
 }
 
@@ -165,7 +167,27 @@ func vfC13StreamCase(rt *rapid.T, c *ev.Collector) {
 	for i := range wireCap {
 		wireCap[i] = rapid.SampledFrom([]int{0, 0, 0, 0, 0, 0, 1, 3, 31, 32, 33}).Draw(rt, "wireReadCap")
 	}
-	s := vfOpen(arr, rk, par[0], par[1], wireCap, func(msg string) { rt.Fatalf("%s", msg) })
+	// Steer the padding lengths the real sides draw towards the extremes of the
+	// legal range in part of the cases (MAX_PADDING/2+1 wraps to 0 in a correct
+	// sender).
+	force := [2][2]int{{-1, -1}, {-1, -1}}
+	for i := 0; i < 2; i++ {
+		if (i == 0 && arr == vfArrRealServer) || (i == 1 && arr == vfArrRealClient) {
+			continue
+		}
+		vals := []int{0, 1, refobfs3.MaxPadPhase - 1, refobfs3.MaxPadPhase, refobfs3.MaxPadPhase + 1}
+		switch rapid.SampledFrom([]string{"none", "none", "none", "none", "max", "zero", "max+1", "mixed", "mixed"}).Draw(rt, "forcemode") {
+		case "max":
+			force[i] = [2]int{refobfs3.MaxPadPhase, refobfs3.MaxPadPhase}
+		case "zero":
+			force[i] = [2]int{0, 0}
+		case "max+1":
+			force[i] = [2]int{refobfs3.MaxPadPhase + 1, refobfs3.MaxPadPhase + 1}
+		case "mixed":
+			force[i] = [2]int{rapid.SampledFrom(vals).Draw(rt, "force1"), rapid.SampledFrom(vals).Draw(rt, "force2")}
+		}
+	}
+	s := vfOpenForced(arr, rk, par[0], par[1], wireCap, force, func(msg string) { rt.Fatalf("%s", msg) })
 	defer s.close()
 
 	// Opening: most cases let both sides learn the peer's key first (obfs3 can
@@ -216,7 +238,7 @@ func vfC13StreamCase(rt *rapid.T, c *ev.Collector) {
 
 	// ---- evidence ----
 	cls := []string{"stream", vfArrNames[arr]}
-	split, coal, extreme, total8194 := false, false, false, false
+	split, coal, extreme, total8194, realExtreme := false, false, false, false, false
 	for _, e := range s.ends {
 		if len(e.splits) > 0 {
 			split = true
@@ -228,6 +250,16 @@ func vfC13StreamCase(rt *rapid.T, c *ev.Collector) {
 			cls = append(cls, "pubkey-split")
 		}
 		if e.real {
+			p1, p2 := e.hello-refobfs3.UDHSize, e.pre-e.hello-refobfs3.MagicLen
+			if p1 == 0 || p1 == refobfs3.MaxPadPhase || p2 == 0 || p2 == refobfs3.MaxPadPhase {
+				realExtreme = true
+			}
+			if p1+p2 == refobfs3.MaxPadding {
+				cls = append(cls, "realpad-total-8194")
+			}
+			if p1+p2 == 0 {
+				cls = append(cls, "realpad-total-0")
+			}
 			continue
 		}
 		for _, p := range []int{e.par.Pad1, e.par.Pad2} {
@@ -260,6 +292,9 @@ func vfC13StreamCase(rt *rapid.T, c *ev.Collector) {
 	if total8194 {
 		cls = append(cls, "refpad-total-8194")
 	}
+	if realExtreme {
+		cls = append(cls, "realpad-extreme")
+	}
 	if wireCap[0] > 0 || wireCap[1] > 0 {
 		cls = append(cls, "wire-read-cap")
 	}
@@ -268,14 +303,14 @@ func vfC13StreamCase(rt *rapid.T, c *ev.Collector) {
 			c.Class(fmt.Sprintf("split@%02d", j), 1)
 		}
 	}
-	nt := split || coal || extreme
+	nt := split || coal || extreme || realExtreme
 	h := strings.Join(s.hist, " ")
-	c.Case(ev.Hash("stream", arr, rk, vfParStr(s.ends[0]), vfParStr(s.ends[1]), fmt.Sprint(wireCap), h), nt, cls, func() any {
+	c.Case(ev.Hash("stream", arr, rk, vfParStr(s.ends[0]), vfParStr(s.ends[1]), fmt.Sprint(wireCap), fmt.Sprint(force), h), nt, cls, func() any {
 		hh := h
 		if len(hh) > 600 {
 			hh = hh[:600] + fmt.Sprintf(" ...(%d actions)", len(s.hist))
 		}
-		return map[string]any{"arrangement": vfArrNames[arr], "detrand": rk, "refA": vfParStr(s.ends[0]), "refB": vfParStr(s.ends[1]),
+		return map[string]any{"arrangement": vfArrNames[arr], "detrand": rk, "refA": vfParStr(s.ends[0]), "refB": vfParStr(s.ends[1]), "force": fmt.Sprint(force),
 			"preambleA": s.ends[0].pre, "preambleB": s.ends[1].pre, "bytesAtoB": len(s.ends[0].sent), "bytesBtoA": len(s.ends[1].sent), "actions": hh}
 	})
 }
